@@ -370,3 +370,14 @@ M("C05", "same-bank-test-on-next-address", CPU, "            delta = physical_de
 M("C09", "limit-on-scope-log", CG, "    macro_def: MacroAstNode = macro_definitions[node.name]\n", "    if len(resolver.scopes) > 200:\n        raise NodeError(\"nested too deeply\", file_info)\n    macro_def: MacroAstNode = macro_definitions[node.name]\n", "C09.R7")
 M("C06", "complement-mask-loop-strict", EXPRF, "                if v1.bit_length() <= 8:\n                    r = ctypes.c_uint8(~v1).value\n                elif v1.bit_length() <= 16:\n                    r = ctypes.c_uint16(~v1).value\n                elif v1.bit_length() <= 32:\n                    r = ctypes.c_uint32(~v1).value\n                else:\n", "                for mask in (0xFF, 0xFFFF, 0xFFFFFFFF):\n                    if abs(v1) < mask:\n                        r = ~v1 & mask\n                        break\n                else:\n", "C06.R3")
 M("C06", "complement-mask-loop-neutral", EXPRF, "                if v1.bit_length() <= 8:\n                    r = ctypes.c_uint8(~v1).value\n                elif v1.bit_length() <= 16:\n                    r = ctypes.c_uint16(~v1).value\n                elif v1.bit_length() <= 32:\n                    r = ctypes.c_uint32(~v1).value\n                else:\n", "                for mask in (0xFF, 0xFFFF, 0xFFFFFFFF):\n                    if abs(v1) <= mask:\n                        r = ~v1 & mask\n                        break\n                else:\n", neutral=True)
+M("C12", "format-selection-inverted", "a816/cli.py", 'if args.format == "ips":', 'if args.format != "ips":', "C12.R1")
+M("C06", "open-paren-left-on-stack", EXPRF, "                output_queue.append(op)\n            operator_stack.pop()\n", "                output_queue.append(op)\n", "C06.R2")
+M("C14", "error-string-returns-minus-zero", "a816/program.py", "                    logger.error(error)\n                    return -1", "                    logger.error(error)\n                    return -0", "C14.R2")
+M("C16", "no-space-skip-after-size-suffix", SST, "        s.emit(TokenType.OPCODE_SIZE)\n        s.ignore_run(\" \")\n", "        s.emit(TokenType.OPCODE_SIZE)\n", "C16.R2")
+M("C16", "lookahead-keeps-blanks", SST, "        saved_pos = s.pos\n\n        s.accept_run(\" \\t\")\n", "        saved_pos = s.pos\n\n", "C16.R2")
+M("C16", "lookahead-comment-not-skipped", SST, "            s.accept_run(\"\\n\\0\", negate=True)\n\n        if s.peek()", "            pass\n\n        if s.peek()", "C16.R2")
+M("C16", "lookahead-not-restored", SST, "        else:\n            s.pos = saved_pos\n            s.emit(TokenType.OPCODE)", "        else:\n            s.emit(TokenType.OPCODE)", "C16.R2")
+M("C16", "block-comment-loop-inverted", SST, "while not s.accept_prefix(\"*/\"):", "while s.accept_prefix(\"*/\"):", "C16.R2")
+M("C01", "backtrack-without-restore", PST, "            p.pos = saved_position\n            operand = parse_expression(p)\n", "            operand = parse_expression(p)\n", "C01.R5")
+M("C12", "defines-guard-inverted", "a816/cli.py", "    if args.defines:\n", "    if not args.defines:\n", "C12.R3")
+M("C16", "include-source-never-read", PST, "            source = fd.read()\n", "            pass\n", "C16.RU")
